@@ -66,6 +66,7 @@ func gen(family string, seed uint64, n, max int, opt string, emit func(interface
 	case "muxfault":
 		genMuxFault(seed, n, max, emit)
 	case "demux":
+		genEarlyPMT = opt == "earlypmt"
 		genStreams(seed, n, max, emit)
 	case "pair":
 		genPairs(seed, n, max, emit)
